@@ -40,6 +40,8 @@ def run_check(ctx, cid, tier, seed, t0):
         except Exception as e:   # a crash of the machinery is a broken tie, never a pass
             import traceback
             problems.append({'kind': 'correspondence-crash', 'detail': repr(e), 'log': traceback.format_exc()[-2000:]})
+    if corr and corr.get('problems'):
+        problems += corr['problems']
     monitor_fail = corr['monitor_failures'] if corr else []
     mism = corr['corr_mismatches'] if corr else []
     if mism:
@@ -238,7 +240,15 @@ C07_ASSUMPTIONS = dict(
 def combine(*corrs):
     """several correspondences decide one property: every part runs, the results are merged"""
     def corr(ctx, cid, tier, seed):
-        rs = [c(ctx, cid, tier, seed) for c in corrs]
+        rs, crashes = [], []
+        for i, c in enumerate(corrs):
+            try:
+                rs.append(c(ctx, cid, tier, seed))
+            except Exception as e:      # a part that cannot run is a broken tie of its own; the other parts still report their failing inputs
+                import traceback
+                crashes.append({'kind': 'correspondence-crash', 'detail': 'part %d: %r' % (i + 1, e), 'log': traceback.format_exc()[-1500:]})
+        if not rs:
+            raise RuntimeError('no part of the correspondence could run: %s' % crashes)
         dist = {}
         for i, r in enumerate(rs):
             for k, v in r.get('distribution', {}).items():
@@ -247,7 +257,8 @@ def combine(*corrs):
                 'rule': ' || '.join('part %d: %s' % (i + 1, r['rule']) for i, r in enumerate(rs)),
                 'samples': [x for r in rs for x in r.get('samples', [])][:4],
                 'traces_validated_against_impl': sum(r['traces_validated_against_impl'] for r in rs), 'distribution': dist,
-                'monitor_failures': [x for r in rs for x in r['monitor_failures']], 'corr_mismatches': [x for r in rs for x in r['corr_mismatches']]}
+                'monitor_failures': [x for r in rs for x in r['monitor_failures']], 'corr_mismatches': [x for r in rs for x in r['corr_mismatches']],
+                'problems': crashes}
     return corr
 
 
